@@ -37,6 +37,7 @@ CONSTANTS
     Page,       \* OS page: unmap/remap boundaries are multiples of it
     MaxOs,      \* OS requests per call
     MaxReps,    \* repetition marks per behaviour
+    Base0,      \* initial number of baseline repetitions
     TrackC04,   \* BOOLEAN: maintain peak/reps (C04 observation); FALSE keeps the C03 model small
     Disciplined \* BOOLEAN: the model allocator obeys the C04 discipline (FALSE = anti-vacuity probe)
 
@@ -45,12 +46,15 @@ VARIABLES
     pieces,   \* the same memory as granted by the OS, request by request (never merged)
     live,     \* set of live blocks [id, addr, size, align]
     call,     \* the allocator call in progress (NoCall between calls)
+    plive,    \* C04: padded demand of the live blocks (sum of Pad over live)
     peak,     \* C04: peak padded demand so far
-    reps,     \* C04: footprint at each repetition mark (all blocks freed)
+    reps,     \* C04: per repetition [mark |-> footprint at its end (all blocks freed),
+              \*      high |-> largest footprint during it]
+    hw,       \* C04: largest footprint since the last repetition mark
     base,     \* C04: number of leading repetitions that form the steady-state baseline
     obs       \* what was observed about the last step (flags logged by the recorder)
 
-vars == <<mapped, pieces, live, call, peak, reps, base, obs>>
+vars == <<mapped, pieces, live, call, plive, peak, reps, hw, base, obs>>
 
 -----------------------------------------------------------------------------
 (* intervals *)
@@ -122,9 +126,11 @@ Init ==
     /\ pieces = {}
     /\ live = {}
     /\ call = NoCall
+    /\ plive = 0
     /\ peak = 0
     /\ reps = <<>>
-    /\ base = 2
+    /\ hw = 0
+    /\ base = Base0
     /\ obs = Obs0
 
 -----------------------------------------------------------------------------
@@ -133,11 +139,12 @@ Init ==
 BeginEff(op, id, size, align) ==
     /\ call' = [op |-> op, id |-> id, size |-> size, align |-> align, refused |-> FALSE, nos |-> 0,
                 before |-> live]
+    \* demand counts from the moment it is requested, whether or not the call succeeds
     /\ peak' = IF TrackC04 /\ op \in AllocOps \cup {"realloc"}
-               THEN Max2(peak, SumPad({b \in live : b.id # id}) + Pad(size, align))
+               THEN Max2(peak, plive - SumPad({b \in live : b.id = id}) + Pad(size, align))
                ELSE peak
     /\ obs' = [Obs0 EXCEPT !.ev = "begin"]
-    /\ UNCHANGED <<mapped, pieces, live, reps, base>>
+    /\ UNCHANGED <<mapped, pieces, live, plive, reps, hw, base>>
 
 \* the OS grants [lo, lo+size)
 MapEff(lo, size) ==
@@ -146,13 +153,14 @@ MapEff(lo, size) ==
     /\ mapped' = AddIv(SubIv(mapped, Iv(lo, lo + size)), Iv(lo, lo + size))
     /\ pieces' = SubIv(pieces, Iv(lo, lo + size)) \cup {Iv(lo, lo + size)}
     /\ call' = [call EXCEPT !.nos = @ + 1]
-    /\ UNCHANGED <<live, peak, reps, base>>
+    /\ hw' = IF TrackC04 THEN Max2(hw, SumWidth(AddIv(SubIv(mapped, Iv(lo, lo + size)), Iv(lo, lo + size)))) ELSE hw
+    /\ UNCHANGED <<live, plive, peak, reps, base>>
 
 \* the OS refuses a request for more memory
 RefuseEff ==
     /\ obs' = [Obs0 EXCEPT !.ev = "refuse", !.gratuitous = Gratuitous]
     /\ call' = [call EXCEPT !.refused = TRUE, !.nos = @ + 1]
-    /\ UNCHANGED <<mapped, pieces, live, peak, reps, base>>
+    /\ UNCHANGED <<mapped, pieces, live, plive, peak, reps, hw, base>>
 
 \* [lo, hi) is handed back to the OS
 UnmapEff(lo, hi) ==
@@ -162,7 +170,7 @@ UnmapEff(lo, hi) ==
     /\ mapped' = SubIv(mapped, Iv(lo, hi))
     /\ pieces' = SubIv(pieces, Iv(lo, hi))
     /\ call' = [call EXCEPT !.nos = @ + 1]
-    /\ UNCHANGED <<live, peak, reps, base>>
+    /\ UNCHANGED <<live, plive, peak, reps, hw, base>>
 
 \* mremap in place: shrinking gives the tail back, growing maps the extension
 RemapEff(lo, old, new) ==
@@ -186,14 +194,19 @@ RetEff(addr, content, zero, prefix) ==
                                \* the block the call leaves behind (a failed realloc: the old one)
                                !.placed = IF call.op = "free" THEN {} ELSE IF null THEN old ELSE new,
                                !.before = call.before]
+        /\ plive' = IF ~TrackC04 THEN plive
+                    ELSE IF call.op = "free" THEN plive - SumPad(old)
+                    ELSE IF null THEN plive
+                    ELSE plive - SumPad(old) + SumPad(new)
         /\ call' = NoCall
-        /\ UNCHANGED <<mapped, pieces, peak, reps, base>>
+        /\ UNCHANGED <<mapped, pieces, peak, reps, hw, base>>
 
 \* the workload driver marks the end of a repetition (everything freed)
 RepEff ==
-    /\ reps' = Append(reps, Footprint)
+    /\ reps' = Append(reps, [mark |-> Footprint, high |-> Max2(hw, Footprint)])
+    /\ hw' = Footprint
     /\ obs' = [Obs0 EXCEPT !.ev = "rep"]
-    /\ UNCHANGED <<mapped, pieces, live, call, peak, base>>
+    /\ UNCHANGED <<mapped, pieces, live, call, plive, peak, base>>
 
 -----------------------------------------------------------------------------
 (* INVARIANTS - the properties.  Each is a state predicate over the abstract state and the   *)
@@ -208,6 +221,7 @@ TypeOK ==
     /\ SumWidth(pieces) = Footprint
     /\ \A b, c \in live : b.id = c.id => b = c
     /\ peak \in Nat /\ base \in Nat
+    /\ TrackC04 => plive = SumPad(live) /\ plive <= peak
 
 (* ---- C03 ---- *)
 \* every live block starts at a multiple of its requested alignment
@@ -239,11 +253,12 @@ AccessibleStep == /\ \A b \in obs.placed : Covered(mapped, BlockIv(b))
 ReleaseOnce == obs.covered
 \* no OS request while the padded request fits into free space already held: freed space is reused
 NoGratuitousMap == ~obs.gratuitous
-\* repeating a workload does not make the mapped heap keep growing: after the baseline
-\* repetitions the footprint at a repetition mark stays within one granularity of the baseline's
-BaseMax == MaxOf({0} \cup {reps[i] : i \in 1 .. Min2(base, Len(reps))})
-SteadyState == \A i \in 1 .. Len(reps) : i > base => reps[i] <= BaseMax + Gran
-SteadyStateStep == obs.ev = "rep" /\ Len(reps) > base => reps[Len(reps)] <= BaseMax + Gran
+\* repeating a workload does not make the mapped heap keep growing: what is still held at the
+\* end of a repetition after the baseline repetitions stays within one granularity of the most
+\* that was ever held during the baseline repetitions
+BaseHigh == MaxOf({0} \cup {reps[i].high : i \in 1 .. Min2(base, Len(reps))})
+SteadyState == \A i \in 1 .. Len(reps) : i > base => reps[i].mark <= BaseHigh + Gran
+SteadyStateStep == obs.ev = "rep" /\ Len(reps) > base => reps[Len(reps)].mark <= BaseHigh + Gran
 \* memory held is bounded by peak demand (loose: trim threshold, granularity, segment overhead)
 Envelope == call = NoCall => Footprint <= EnvK * peak + EnvC
 
@@ -267,7 +282,7 @@ MayAsk(size) ==
     Disciplined =>
         /\ ~Gratuitous
         /\ Footprint + size <= EnvK * peak + EnvC
-        /\ (Len(reps) >= base => Footprint + size <= BaseMax + Gran)
+        /\ (Len(reps) >= base => Footprint + size <= BaseHigh + Gran)
 
 OsMap(lo, size) ==
     /\ ~Quiet /\ call.nos < MaxOs
